@@ -3,7 +3,14 @@
 A case is a schedule over ONE real `Transfer` object (subclassed only to record who writes what), added to a real
 `TransferManager` (subclassed only to record what its own listener is told; its jobs are never started):
 
-    {'dir', 'state', 'slow_cancel', 'slow_fs', 'ls': [[gated, yields], …], 'k', 'init': {...}, 'steps': [[action…], …]}
+    {'dir', 'state', 'slow_cancel', 'slow_fs', 'ls': [[gated, yields], …], 'k', 'init': {...}, 'steps': [[action…], …],
+     'stubborn': 0|1 (optional), 'load': {'legacy': {...}|None} (optional)}
+
+With `load`, the transfer the schedule runs on is not built in place: a transfer in state `state` with the fields of `init` is
+added to a first `TransferManager` and written to a real shelve cache by the real `write_cache()` (optionally rewritten
+the way an older release would have left it: no `abort_reason`, an `_offset`, the pre-fix key), and a SECOND manager on
+the same cache reads it back with the real `read_cache()`; the listeners are attached at `TransferAddedEvent` — as early
+as the API allows — and everything they are told from then on is judged. The schedule then runs on the loaded object.
 
 `transfer.state_listeners` = the manager's own listener (number 0, as `TransferManager.add` registers it) followed by
 one application listener per entry of `ls`, in that order: `gated` = it suspends until a `resume`, `yields` = it then
@@ -14,17 +21,28 @@ Every step = its actions, then the loop is run until nothing more can happen, th
 Actions: ['call', id, method, reason, remotely] (`transfer.state.<method>(…)` evaluated AND scheduled now),
 ['create', …] (evaluated now — the state object is looked up — scheduled by a later ['start', id], as
 manager.py:586-589 does with gather), ['mcall', id, method] (`TransferManager.abort/queue/pause(transfer)` on the real
-manager object), ['resume']
+manager object), ['pcall', id, reason] (the real `TransferManager._on_peer_transfer_queue_failed` handles the peer's message
+for this download), ['resume']
 (the slow step the lock holder is suspended in finishes: cancelled tasks end / file system answers / listener
-returns), ['spawn', which] (fresh tasks are attached), ['setfile'].
+returns), ['spawn', which] (fresh tasks are attached), ['setfile'],
+['cancel', id] (the task that awaits call `id` is cancelled — `task.cancel()`, which is also what the time-out of an
+`asyncio.wait_for` around the request does — wherever that call is suspended: waiting for the lock, in the slow task
+cancellation, in the file-system call, inside a listener), ['reload'] (`write_cache()` then `read_cache()` on the same
+manager: what stop/start of a client does to a transfer that is still held).
+`stubborn` = a cancelled task that is cancelled again (which is what cancelling the `gather` waiting for it does) does
+not end any sooner.
 """
 from __future__ import annotations
 
 import asyncio
 import contextvars
 import logging
+import copyreg
+import hashlib
 import os
+import pickle
 import random
+import shelve
 import shutil
 import tempfile
 import types
@@ -141,14 +159,22 @@ async def _scenario(loop, case, path):
     from aioslsk.exceptions import InvalidStateTransition
     import aiofiles.os as real_asyncos
 
+    from aioslsk.transfer.cache import TransferShelveCache
+    from aioslsk.events import TransferAddedEvent
+    from aioslsk.protocol.messages import PeerTransferQueueFailed
+
     log = []            # chronological: dicts {kind, who, …, fx}
     gate = _Gate(loop)
     rec = {'on': False}
+    cell = {'t': None, 'closing': False}      # the transfer under observation (copies read from the cache are not)
+    cdir = os.path.dirname(path)
 
     def who():
         return _CALL.get()
 
     def add(kind, **kw):
+        if cell['closing']:         # the case is over: what happens while the harness tears it down is not observed
+            return
         kw.update(kind=kind, who=kw.get('who', who()), fx=os.path.exists(path))
         log.append(kw)
 
@@ -156,7 +182,7 @@ async def _scenario(loop, case, path):
         """The real Transfer; attribute writes and cancel_tasks() are recorded with the task that made them."""
 
         def __setattr__(self, k, v):
-            if rec['on'] and k in WATCHED:
+            if rec['on'] and k in WATCHED and self is cell['t']:
                 old = self.__dict__.get(k)
                 if k == 'state':
                     o, n = getattr(old, 'VALUE', None), getattr(v, 'VALUE', None)
@@ -167,9 +193,32 @@ async def _scenario(loop, case, path):
 
         def cancel_tasks(self):
             live = [t for t in self.get_tasks() if not t.done()]
-            if rec['on']:
+            if rec['on'] and self is cell['t']:
                 add('cancel', live=len(live))
             return super().cancel_tasks()
+
+    class RecCache(TransferShelveCache):
+        """The real shelve cache. What it stores are plain `Transfer` pickles (the recording subclass is taken off for the
+        duration of the write); what it reads is given the recording subclass so that writes to it are seen."""
+
+        def write(self, transfers):
+            tagged = [x for x in transfers if type(x) is RecTransfer]
+            for x in tagged:
+                x.__class__ = Transfer
+            try:
+                return super().write(transfers)
+            finally:
+                for x in tagged:
+                    x.__class__ = RecTransfer
+
+        def read(self):
+            objs = super().read()
+            for o in objs:
+                if type(o) is Transfer:
+                    o.__class__ = RecTransfer
+            if cell['t'] is None and len(objs) == 1:
+                cell['t'] = objs[0]
+            return objs
 
     class Listener:
         """An application listener (`TransferStateListener` is a public protocol): records what it is told, then
@@ -203,6 +252,7 @@ async def _scenario(loop, case, path):
     # file system as state.py sees it: recorded, and slow when the case says so
     async def rec_exists(p):
         if case.get('slow_fs'):
+            add('fs-wait')
             await gate.wait()
         return await real_asyncos.path.exists(p)
 
@@ -218,7 +268,13 @@ async def _scenario(loop, case, path):
             await loop.create_future()
         except asyncio.CancelledError:
             if case.get('slow_cancel'):
-                await gate.wait()
+                while True:
+                    try:
+                        await gate.wait()
+                        break
+                    except asyncio.CancelledError:      # cancelled again while winding down
+                        if not case.get('stubborn'):
+                            raise
             for _ in range(case.get('k', 0)):
                 await asyncio.sleep(0)
             raise
@@ -260,19 +316,64 @@ async def _scenario(loop, case, path):
             dummies.append(t._remotely_queue_task)
             t._remotely_queue_task.add_done_callback(t._remotely_queue_task_complete)
 
-    spawn(ini.get('tasks', 'none'))
-    # the real manager (jobs not started, collaborators absent: abort/queue/pause do not use them); `add` registers
-    # the manager as the transfer's first state listener
-    bus = EventBus()
-    mgr = RecManager(_settings(), bus, types.SimpleNamespace(), types.SimpleNamespace(), types.SimpleNamespace())
-    await mgr.add(t)
     listeners = [Listener(i + 1, g, y) for i, (g, y) in enumerate(_listeners(case))]
-    t.state_listeners.extend(listeners)
-    await simloop.settle()          # the dummy tasks reach their await
-
+    ns = types.SimpleNamespace
     saved_asyncos = st_mod.asyncos
-    st_mod.asyncos = fake_asyncos
-    rec['on'] = True
+    crash = None
+    if case.get('load') is None:
+        cell['t'] = t
+        spawn(ini.get('tasks', 'none'))
+        # the real manager (jobs not started, collaborators absent: abort/queue/pause do not use them); `add` registers
+        # the manager as the transfer's first state listener
+        bus = EventBus()
+        mgr = RecManager(_settings(), bus, ns(), ns(), ns(), cache=RecCache(cdir))
+        await mgr.add(t)
+        add('reg', who=None, li=0, cur=t.state.VALUE.name)
+        for l in listeners:
+            t.state_listeners.append(l)
+            add('reg', who=None, li=l.li, cur=t.state.VALUE.name)
+        await simloop.settle()          # the dummy tasks reach their await
+        st_mod.asyncos = fake_asyncos
+        rec['on'] = True
+    else:
+        # session 1: the record is written by the real write_cache of a first manager
+        first = TransferManager(_settings(), EventBus(), ns(), ns(), ns(), cache=RecCache(cdir))
+        await first.add(t)
+        first.write_cache()
+        if case['load'].get('legacy'):
+            _legacy_rewrite(cdir, case['load']['legacy'])
+        # session 2: a new manager on the same cache; the application attaches its listeners when it is told about the
+        # transfer (TransferAddedEvent is emitted by `add` right after the manager registered itself)
+        bus = EventBus()
+
+        async def on_added(event):
+            tr = event.transfer
+            if cell['t'] is None:
+                cell['t'] = tr
+            if tr is cell['t']:
+                add('reg', who=None, li=0, cur=tr.state.VALUE.name)
+                for l in listeners:
+                    tr.state_listeners.append(l)
+                    add('reg', who=None, li=l.li, cur=tr.state.VALUE.name)
+        bus.register(TransferAddedEvent, on_added)
+        mgr = RecManager(_settings(), bus, ns(), ns(), ns(), cache=RecCache(cdir))
+        t = None
+        st_mod.asyncos = fake_asyncos
+        rec['on'] = True
+        try:
+            await mgr.read_cache()
+            await simloop.settle()
+        except Exception as e:      # the real read_cache raised: an observation
+            crash = f'read_cache raised {type(e).__name__}: {e}'
+        t = cell['t'] if cell['t'] is not None and cell['t'] in mgr.transfers else None
+        if t is None and crash is None:
+            crash = f'read_cache did not add the stored transfer ({len(mgr.transfers)} transfers held)'
+        if crash is not None:
+            rec['on'] = False
+            st_mod.asyncos = saved_asyncos
+            return {'lines': ['EXC ' + crash], 'log': log, 'crash': crash}
+        spawn(ini.get('tasks', 'none'))
+        await simloop.settle()
     created = {}        # id -> coroutine object not yet scheduled
     runners = []
     lines = []
@@ -282,7 +383,9 @@ async def _scenario(loop, case, path):
         _CALL.set(cid)          # this task's own context (a task runs in a copy of its creator's)
         try:
             r = await coro
-            if r is True or (mgr and r is None):
+            if mgr == 'peer' and r is None:
+                code = 'P'          # a message handler: it does not report whether the request was refused
+            elif r is True or (mgr and r is None):
                 code = 'T'
             elif r is False:
                 code = 'F'
@@ -291,10 +394,19 @@ async def _scenario(loop, case, path):
         except InvalidStateTransition:
             code = 'R'
         except asyncio.CancelledError:
-            raise
+            if cell['closing']:
+                raise
+            code = 'C'              # the caller was cancelled (a `cancel` action): that is what it is told
         except Exception as e:       # the real code raised: an observation
             code = 'E' + type(e).__name__
         add('ret', who=cid, code=code, cur=t.state.VALUE.name)
+
+    async def reloader():
+        try:
+            mgr.write_cache()
+            await mgr.read_cache()
+        except Exception as e:       # the real code raised: an observation
+            add('ret', who='reload', code='E' + type(e).__name__, cur=t.state.VALUE.name)
 
     def make(meth, reason, remotely):
         """Evaluate `transfer.state.<meth>(…)` — looks the state object up now; runs nothing yet."""
@@ -307,15 +419,21 @@ async def _scenario(loop, case, path):
             return bound(remotely=True) if remotely else bound()
         return bound()
 
+    runner_of = {}
+    fresh = set()
+
     def schedule(cid, coro, mgr):
         add('sched', who=cid, mgr=bool(mgr))
         task = loop.create_task(runner(cid, coro, mgr))
         runners.append(task)
+        runner_of[cid] = task
+        fresh.add(cid)
 
     used = set()
     try:
         for si, step in enumerate(case['steps']):
             loop._vt = T0 + si + 1
+            fresh.clear()
             for a in step:
                 kind = a[0]
                 if kind in ('call', 'create'):
@@ -354,6 +472,32 @@ async def _scenario(loop, case, path):
                     used.add(cid)
                     schedule(cid, getattr(mgr, meth)(t), True)
                     lines.append('ok')
+                elif kind == 'pcall':
+                    _, cid, reason = a
+                    if cid in used:
+                        lines.append('err duplicate-id')
+                        continue
+                    if case['dir'] != 'download':
+                        lines.append('err not-a-download')
+                        continue
+                    used.add(cid)
+                    msg = PeerTransferQueueFailed.Request(t.remote_path, REASONS[reason] if reason is not None else None)
+                    schedule(cid, mgr._on_peer_transfer_queue_failed(msg, ns(username=t.username)), 'peer')
+                    lines.append('ok')
+                elif kind == 'cancel':
+                    cid = a[1]
+                    task = runner_of.get(cid)
+                    if cid in fresh:
+                        lines.append('err not-settled')
+                    elif task is None or task.done():
+                        lines.append('err not-in-flight')
+                    else:
+                        add('cancel-caller', who=cid)
+                        task.cancel()
+                        lines.append('ok')
+                elif kind == 'reload':
+                    runners.append(loop.create_task(reloader()))
+                    lines.append('ok')
                 elif kind == 'resume':
                     gate.open()
                     lines.append('ok')
@@ -389,6 +533,7 @@ async def _scenario(loop, case, path):
             add('obs', who=None, step=si, cur=t.state.VALUE.name, gated=sum(1 for f in gate.waiting if not f.done()))
     finally:
         rec['on'] = False
+        cell['closing'] = True
         st_mod.asyncos = saved_asyncos
         for c in created.values():
             c.close()
@@ -400,9 +545,128 @@ async def _scenario(loop, case, path):
     return {'lines': lines, 'log': log}
 
 
+async def _scenario_many(loop, case, cdir):
+    """Monitor-only: a cache holding SEVERAL transfers (any mix of directions and states, some as an older release wrote
+    them) is read by the real `read_cache` of a new manager; every transfer gets the manager's own listener and one
+    application listener attached at its TransferAddedEvent; then one manager request is made of every transfer."""
+    from aioslsk.transfer.model import Transfer, TransferDirection
+    from aioslsk.transfer.state import TransferState
+    from aioslsk.transfer.manager import TransferManager
+    from aioslsk.transfer.cache import TransferShelveCache
+    from aioslsk.events import EventBus, TransferAddedEvent
+    from aioslsk.exceptions import InvalidStateTransition
+    ns = types.SimpleNamespace
+    first = TransferManager(_settings(), EventBus(), ns(), ns(), ns(), cache=TransferShelveCache(cdir))
+    idents = []
+    for i, r in enumerate(case['records']):
+        direction = TransferDirection.UPLOAD if r['dir'] == 'upload' else TransferDirection.DOWNLOAD
+        t = Transfer(f'user{i % 3}', f'remote\\path\\f{i}.bin', direction)
+        t.state = TransferState.init_from_state(TransferState.State[r['state']], t)
+        t.filesize = 1000 if r.get('fs') else None
+        t.bytes_transfered = r.get('b', 0)
+        t.start_time = T0 if r['state'] in ('DOWNLOADING', 'UPLOADING', 'COMPLETE', 'INCOMPLETE') else None
+        t.fail_reason = 'Cancelled' if r['state'] == 'FAILED' else None
+        t.abort_reason = 'Requested' if r['state'] == 'ABORTED' else None
+        t.remotely_queued = bool(i % 2)
+        await first.add(t)
+        idents.append((t.username, t.remote_path, direction.value))
+    first.write_cache()
+    for ident, r in zip(idents, case['records']):
+        if r.get('legacy'):
+            _legacy_rewrite(cdir, r['legacy'], ident)
+
+    def key(tr):
+        return f'{tr.username}|{tr.remote_path}|{tr.direction.name.lower()}'
+    told, seen, keep = {}, {}, []
+
+    class L:
+        def __init__(self, k, li, y):
+            self.k, self.li, self.y = k, li, y
+
+        async def on_transfer_state_changed(self, transfer, old, new):
+            told[self.k].append([self.li, old.name, new.name])
+            for _ in range(self.y):
+                await asyncio.sleep(0)
+
+    class RecMgr(TransferManager):
+        async def on_transfer_state_changed(self, transfer, old, new):
+            told.setdefault(key(transfer), []).append([0, old.name, new.name])
+            return await super().on_transfer_state_changed(transfer, old, new)
+
+    async def on_added(event):
+        tr = event.transfer
+        k = key(tr)
+        seen[k] = tr.state.VALUE.name
+        told.setdefault(k, [])
+        l = L(k, 1, case.get('yield', 0))
+        keep.append(l)
+        tr.state_listeners.append(l)
+    bus = EventBus()
+    bus.register(TransferAddedEvent, on_added)
+    mgr = RecMgr(_settings(), bus, ns(), ns(), ns(), cache=TransferShelveCache(cdir))
+    await mgr.read_cache()
+    await simloop.settle()
+    if case.get('follow'):
+        for tr in list(mgr.transfers):
+            try:
+                await getattr(mgr, case['follow'])(tr)
+            except InvalidStateTransition:
+                pass
+        await simloop.settle()
+    return {'lines': [], 'log': [], 'many': {'told': told, 'seen': seen, 'held': len(mgr.transfers)}}
+
+
+def _monitor_many(case: dict, res: dict) -> list[Violation]:
+    """Sentence (1) of the property for every transfer read from the cache: every pair a listener is told is a documented
+    edge for that transfer's direction, and each listener's pairs chain from the state the transfer was in when
+    TransferAddedEvent was emitted."""
+    vs = []
+    if res.get('crash'):
+        return [Violation('C03-impl-error', 'reading the cache raised: ' + res['crash'], case)]
+    many = res['many']
+    for k, pairs in many['told'].items():
+        d = k.rsplit('|', 1)[1]
+        last = {}
+        for li, a, b in pairs:
+            who = "the manager's own listener" if li == 0 else 'the application listener attached at TransferAddedEvent'
+            if (a, b) not in SPEC_EDGES[d]:
+                vs.append(Violation('C03-undocumented-edge',
+                                    f"{d} read from the cache ({k}): {who} was told {a} -> {b}, not an edge of the documented graph",
+                                    case, observed=f'{a}>{b}', required='an edge of Spec/TransferGraph.lean'))
+            before = last.get(li, many['seen'].get(k))
+            if before is not None and a != before:
+                vs.append(Violation('C03-listener-sequence-broken',
+                                    f"{d} read from the cache ({k}): {who} was told {a} -> {b} although the last state it "
+                                    f"knew of was {before}: it observed an unannounced change {before} -> {a}", case,
+                                    observed=pairs, required='each pair starts in the state the previous pair ended in'))
+            last[li] = b
+    return vs[:4]
+
+
+def _loadmany_cases(rng, n: int) -> list[dict]:
+    out = []
+    for i in range(n):
+        recs = []
+        for _ in range(rng.randint(2, 7)):
+            recs.append({'dir': rng.choice(['upload', 'download']), 'state': rng.choice(STATES), 'fs': rng.randint(0, 1),
+                         'b': rng.choice([0, 10, 1000]), 'legacy': rng.choice(LEGACIES + [None, None])})
+        if i % 3 == 0:      # every state of one direction at once
+            d = ('upload', 'download')[(i // 3) % 2]
+            recs = [{'dir': d, 'state': s, 'fs': 1, 'b': rng.choice([10, 1000]), 'legacy': LEGACIES[j % len(LEGACIES)]}
+                    for j, s in enumerate(STATES)]
+        out.append({'kind': 'loadmany', 'dir': 'download', 'records': recs, 'yield': rng.choice([0, 0, 2]),
+                    'follow': rng.choice(['queue', 'abort', 'pause', None]), 'steps': []})
+    return out
+
+
 def _run_impl(case: dict) -> dict:
     d = tempfile.mkdtemp(prefix='c03-')
     try:
+        if case.get('kind') == 'loadmany':
+            res, loop = simloop.run(_scenario_many, case, d, start=T0, wall_timeout=30.0)
+            if loop.exceptions:
+                res['loop_exceptions'] = loop.exceptions[:3]
+            return res
         res, loop = simloop.run(_scenario, case, os.path.join(d, 'f.bin'), start=T0, wall_timeout=30.0)
         if loop.exceptions:
             res['loop_exceptions'] = loop.exceptions[:3]
@@ -423,21 +687,43 @@ def _eval_case(case):
 # --------------------------------------------------------------------------------------------
 
 def _monitor(case: dict, res: dict) -> list[Violation]:
+    if case.get('kind') == 'loadmany':
+        return _monitor_many(case, res)
+    return _monitor_one(case, res)
+
+
+def _monitor_one(case: dict, res: dict) -> list[Violation]:
     """Exactly the two sentences of the property.
     (1) What listeners observe — EVERY registered listener (the manager's own and each application listener), each on
     its own record of the `(old, new)` pairs it was given: every pair is a documented edge (`C03-undocumented-edge`);
     every pair starts in the state the previous one ended in, the first one in the state the transfer was in when the
-    listener was registered — otherwise the listener has observed an unannounced jump (`C03-listener-sequence-broken`);
+    listener was registered (for a transfer read from the cache: when `TransferAddedEvent` was emitted) — otherwise the
+    listener has observed an unannounced jump (`C03-listener-sequence-broken`);
     and the listeners are told the same story: at any time one listener's record is a prefix of the other's, and when
     nothing is in flight (every issued call has returned, no listener is still running) the records are equal
     (`C03-listeners-told-differently`). These are `C03_concurrent`, `C03_each_listener_walk` and
     `C03_listeners_told_the_transitions` read on the real trace.
+    One thing is NOT demanded, because the property does not: that a state change is announced to every listener when the
+    caller that makes it is cancelled in the middle of announcing it (the unchanged code then simply leaves the loop over
+    the listeners). The listeners that were not told are taken to have learned of that one change silently — it is
+    judged as an edge through the listeners that were told — and everything above goes on from there
+    (`C03_listener_told_subsequence`).
     (2) A call that returned False / raised InvalidStateTransition wrote no field, cancelled no live task, removed no
     file, notified nobody (`C03-refused-with-effect`); a call that is not allowed (by the documented graph, in the state
     the transfer is in) and changed nothing must not report success: a state method must return False
     (`C03-not-refused`), `TransferManager.abort/queue/pause` must raise InvalidStateTransition
-    (`C03-manager-refusal-not-raised`). (Plus: a call must end in True/False/InvalidStateTransition, not in another
-    exception: `C03-impl-error`.)
+    (`C03-manager-refusal-not-raised`). And the same sentence at the level of the single side effect: whatever is done on
+    behalf of a request — a field written, a live task cancelled, the file removed, the state assigned — is done while
+    the transfer is in a state in which that request is allowed (`C03-effect-without-allowed-request`): a request that
+    is not allowed in the current state has no side effect, whether or not anybody is still waiting for its answer (its
+    caller may have been cancelled or have timed out long ago). (Plus: a call must end in True/False/
+    InvalidStateTransition or, when its caller was cancelled, CancelledError — not in another exception:
+    `C03-impl-error`.)
+    What is demanded of a request whose caller was cancelled is therefore exactly this and no more: every pair it makes
+    listeners see is a documented edge, and each of its side effects happens in a state in which it is allowed. It need
+    not be all-or-nothing (on the unchanged code a cancelled `abort()` of a DOWNLOADING transfer leaves it DOWNLOADING
+    with its tasks cancelled: no edge was observed, the next request is served on DOWNLOADING), and it need not stop at
+    the moment its caller is told (code that shields the whole request, lock included, is correct).
     Deliberately NOT flagged here: an allowed request that is refused, a method that moves along a documented edge to
     a state it is not named after — those break `C03_table_complete` / `C03_table_sound` or the correspondence; a
     state change no listener is told about at all (the property speaks of what listeners observe)."""
@@ -445,13 +731,26 @@ def _monitor(case: dict, res: dict) -> list[Violation]:
     d = case['dir']
     log = res.get('log', [])
     n_listeners = 1 + len(_listeners(case))
-    told = {li: [] for li in range(n_listeners)}     # listener number -> the pairs it was given, in order
+    # listener number -> its record: the pairs it was given, in order — with, in their place, the changes it is known to
+    # have missed because the caller announcing them was cancelled (entries [old, new, told?])
+    told = {li: [] for li in range(n_listeners)}
+    missed = {li: [] for li in range(n_listeners)}   # listener number -> [(call, (old, new))] missed so far, not yet placed
+    registered = {}                                  # listener number -> the state the transfer was in when it was registered
     once = set()                                     # the per-listener clauses report their first failure only
     in_flight = running = 0                          # calls issued and not returned / listener invocations not ended
     is_mgr = {}
+    cur = None                                       # the state of the transfer, followed through the assignments
+    made = {}                                        # call -> the (old, new) it assigned
+    told_by = {}                                     # call -> listeners it has told
 
     def lname(li):
         return "listener 0 (the manager's own)" if li == 0 else f'listener {li} (application)'
+
+    def pairs(r):
+        return [(a, b) for a, b, _ in r]
+
+    def show(r):
+        return [f'{a}>{b}' + ('' if t else ' (not told: the announcing caller was cancelled)') for a, b, t in r]
 
     def flag(sig, what, **kw):
         if sig not in once:
@@ -462,49 +761,102 @@ def _monitor(case: dict, res: dict) -> list[Violation]:
         for a in step:
             if a[0] in ('call', 'create', 'mcall'):
                 meth_of.setdefault(a[1], a[2])
+            elif a[0] == 'pcall':
+                meth_of.setdefault(a[1], 'fail')
     if res.get('crash'):
         vs.append(Violation('C03-impl-error', 'running the schedule raised: ' + res['crash'], case))
         return vs
     for i, e in enumerate(log):
-        if e['kind'] == 'sched':
+        if e['kind'] == 'reg':
+            registered[e['li']] = e['cur']
+            if cur is None:
+                cur = e['cur']
+        elif e['kind'] == 'sched':
             in_flight += 1
             is_mgr[e['who']] = e.get('mgr', False)
         elif e['kind'] == 'ret':
             in_flight -= 1
         elif e['kind'] == 'event-end':
             running -= 1
+        # ---- (2) at the level of the single side effect
+        if registered and e['kind'] in ('write', 'rm', 'cancel') and e['who'] is not None and e['who'] in meth_of \
+                and meth_of[e['who']] in METHODS and e['who'] not in made and (e['kind'] != 'cancel' or e['live'] > 0):
+            cid, m = e['who'], meth_of[e['who']]
+            here = e['old'] if (e['kind'] == 'write' and e['field'] == 'state') else cur
+            if here is not None and (here, spec_target(d, m)) not in SPEC_EDGES[d]:
+                desc = {'write': lambda: f"wrote {e['field']}: {e['old']} -> {e['new']}",
+                        'rm': lambda: 'removed the local file',
+                        'cancel': lambda: f"cancelled {e['live']} task(s)"}[e['kind']]()
+                ended = next((x['code'] for x in log[:i] if x['kind'] == 'ret' and x['who'] == cid), None)
+                flag('C03-effect-without-allowed-request',
+                     f"{d}: on behalf of call {cid} ({m}) the code {desc} while the transfer was {here} — a state in which "
+                     f"{m} is not allowed (no edge {here} -> {spec_target(d, m)})"
+                     + (f"; the caller of that request had been told {'CancelledError' if ended == 'C' else ended} before"
+                        if ended else ''),
+                     observed={k: v for k, v in e.items() if k != 'fx'},
+                     required='a request that is not allowed in the current state has no side effect')
+        if e['kind'] == 'write' and e['field'] == 'state':
+            if e['who'] is not None:
+                made.setdefault(e['who'], (e['old'], e['new']))
+            cur = e['new']
         if e['kind'] == 'event':
             running += 1
             li = e.get('li', 0)
             rec_li = told.setdefault(li, [])
+            gaps = missed.setdefault(li, [])
+            told_by.setdefault(e['who'], set()).add(li)
             if (e['old'], e['new']) not in SPEC_EDGES[d]:
                 vs.append(Violation('C03-undocumented-edge',
                                     f"{d}: {lname(li)} was told {e['old']} -> {e['new']}, not an edge of the documented graph",
-                                    case, observed=f"{e['old']}>{e['new']} (made by call {e['who']}: {meth_of.get(e['who'])})",
-                                    required='an edge of Spec/TransferGraph.lean'))
-            before = rec_li[-1][1] if rec_li else case['state']
+                                    case, observed=f"{e['old']}>{e['new']} (made by "
+                                    + (f"call {e['who']}: {meth_of.get(e['who'])}" if e['who'] is not None else 'no request at all')
+                                    + ')', required='an edge of Spec/TransferGraph.lean'))
+            # a change this listener had missed and is told after all (the request went on although its caller is gone)
+            if any(c == e['who'] and p == (e['old'], e['new']) for c, p in gaps):
+                gaps.remove(next(g for g in gaps if g[0] == e['who'] and g[1] == (e['old'], e['new'])))
+            before = rec_li[-1][1] if rec_li else registered.get(li, case['state'])
+            if e['old'] != before and gaps:
+                # the changes it missed (their announcement was cut short by the cancellation of the announcing caller)
+                # lead from the last state it knew of to the one this pair starts in: they take their place in its record
+                k, at = 0, before
+                while k < len(gaps) and gaps[k][1][0] == at and at != e['old']:
+                    at = gaps[k][1][1]
+                    k += 1
+                if at == e['old']:
+                    rec_li += [[a, b, False] for _, (a, b) in gaps[:k]]
+                    del gaps[:k]
+                    before = at
             if e['old'] != before:
                 flag('C03-listener-sequence-broken',
                      f"{d}: {lname(li)} was told {e['old']} -> {e['new']} although the last state it knew of was {before}"
-                     + (f" (it had been told {rec_li[-1][0]} -> {rec_li[-1][1]})" if rec_li else ' (the state at registration)')
-                     + f": it observed an unannounced change {before} -> {e['old']}",
-                     observed=[f'{a}>{b}' for a, b in rec_li] + [f"{e['old']}>{e['new']}"],
+                     + (f" (it had been told {rec_li[-1][0]} -> {rec_li[-1][1]})" if rec_li and rec_li[-1][2] else
+                        ' (the state at registration)' if not rec_li else '')
+                     + f": it observed an unannounced change {before} -> {e['old']}"
+                     + ('' if (before, e['old']) in SPEC_EDGES[d] else ', which is not an edge of the documented graph either'),
+                     observed=show(rec_li) + [f"{e['old']}>{e['new']}"],
                      required='each pair starts in the state the previous pair ended in')
-            rec_li.append((e['old'], e['new']))
+            rec_li.append([e['old'], e['new'], True])
             for lj, other in told.items():
                 k = min(len(rec_li), len(other))
-                if lj != li and rec_li[:k] != other[:k]:
+                if lj != li and pairs(rec_li[:k]) != pairs(other[:k]):
                     flag('C03-listeners-told-differently',
                          f"{d}: {lname(li)} and {lname(lj)} were told different state changes of the same transfer",
-                         observed={f'listener {li}': [f'{a}>{b}' for a, b in rec_li],
-                                   f'listener {lj}': [f'{a}>{b}' for a, b in other]},
+                         observed={f'listener {li}': show(rec_li), f'listener {lj}': show(other)},
                          required='all listeners are told the same sequence of state changes')
+        if e['kind'] == 'ret' and e['code'] == 'C' and e['who'] in made:
+            # the caller was cancelled after it had assigned the state: the listeners it has not got to may never be
+            # told this change (not demanded, see above)
+            for li in range(n_listeners):
+                if li not in told_by.get(e['who'], set()) and li in registered:
+                    missed.setdefault(li, []).append((e['who'], made[e['who']]))
         if e['kind'] == 'obs' and in_flight == 0 and running == 0 and not e.get('gated'):
-            recs = [told.get(li, []) for li in range(n_listeners)]
+            recs = [pairs(told.get(li, [])) + [p for _, p in missed.get(li, [])] for li in range(n_listeners)]
             if any(r != recs[0] for r in recs):
                 flag('C03-listeners-told-differently',
                      f"{d}: nothing is in flight any more, yet the listeners have not been told the same state changes",
-                     observed={f'listener {li}': [f'{a}>{b}' for a, b in r] for li, r in enumerate(recs)},
+                     observed={f'listener {li}': show(told.get(li, [])) + [f'{a}>{b} (not told: the announcing caller was '
+                                                                           f'cancelled)' for _, (a, b) in missed.get(li, [])]
+                               for li in range(n_listeners)},
                      required='all listeners are told the same sequence of state changes')
         if e['kind'] == 'ret' and e['code'] in ('F', 'R'):
             cid = e['who']
@@ -545,6 +897,69 @@ def _monitor(case: dict, res: dict) -> list[Violation]:
         if e['kind'] == 'ret' and e['code'][0] in ('E', '?'):
             vs.append(Violation('C03-impl-error', f"call {e['who']} ({meth_of.get(e['who'])}) ended with {e['code']}", case))
     return vs
+
+
+# --------------------------------------------------------------------------------------------
+# a record as an older release would have left it
+# --------------------------------------------------------------------------------------------
+
+class _Raw:
+    """Stand-in for Transfer when a raw pickle is read (does not run __setstate__)."""
+
+    def __setstate__(self, st):
+        self.st = st
+
+
+class _RawUnpickler(pickle.Unpickler):
+    def find_class(self, module, name):
+        if module == 'aioslsk.transfer.model' and name == 'Transfer':
+            return _Raw
+        return super().find_class(module, name)
+
+
+class _LegacyWriter:
+    """Pickles as `Transfer.__new__(Transfer)` + `__setstate__(state)` with an arbitrary state dict."""
+
+    def __init__(self, state):
+        self.state = state
+
+    def __reduce__(self):
+        from aioslsk.transfer.model import Transfer
+        return (copyreg._reconstructor, (Transfer, object, None), self.state)
+
+
+def _legacy_rewrite(cdir: str, spec: dict, ident=None):
+    """Environment action: the stored record (the only one, or the one of identity `ident` = (username, remote_path,
+    direction value)) is rewritten the way an older release would have left it: without `abort_reason` and with
+    attributes that no longer exist (`a`), with an `_offset` (`o`), under the key format that preceded the length prefix
+    (`k`). Works on the raw pickle."""
+    import io
+    with shelve.open(os.path.join(cdir, 'transfers'), flag='c') as sh:
+        keys = list(sh.dict.keys())
+        if ident is None:
+            if len(keys) != 1:
+                raise RuntimeError(f'legacy rewrite: {len(keys)} records in the cache')
+            key = keys[0]
+            st = dict(_RawUnpickler(io.BytesIO(sh.dict[key])).load().st)
+        else:
+            for key in keys:
+                st = dict(_RawUnpickler(io.BytesIO(sh.dict[key])).load().st)
+                if (st['username'], st['remote_path'], st['direction'].value) == tuple(ident):
+                    break
+            else:
+                raise RuntimeError(f'legacy rewrite: no record {ident}')
+        if spec.get('a'):
+            st.pop('abort_reason', None)
+            st['bytes_read'] = 0
+            st['bytes_written'] = 0
+        if spec.get('o'):
+            st['_offset'] = 0
+        data = pickle.dumps(_LegacyWriter(st))
+        if spec.get('k'):
+            del sh.dict[key]
+            key = hashlib.sha256((st['username'] + st['remote_path'] + str(st['direction'].value)).encode('utf-8')
+                                 ).hexdigest().encode()
+        sh.dict[key] = data
 
 
 # --------------------------------------------------------------------------------------------
@@ -611,6 +1026,64 @@ def _pair_mgr_cases() -> list[dict]:
     return out
 
 
+def _allowed(d: str, s: str, m: str) -> bool:
+    return (s, spec_target(d, m)) in SPEC_EDGES[d]
+
+
+def _pair_cancel_cases(tier: str) -> list[dict]:
+    """EXHAUSTIVE over (direction, state, op1 allowed in that state, op2) x the suspension point of op1 (j = 0, 1, 2 slow
+    steps of op1 already finished: task cancellation -> file-system call -> listeners) x WHO is cancelled — the caller of
+    op1 (the lock holder, suspended) or the caller of op2 (waiting for the lock) — x tasks that end / do not end sooner
+    when cancelled again; then a third request, and everything is let go. (op1 not allowed: it is refused at once, there
+    is nothing to cancel — one variant is kept to see exactly that.)"""
+    out = []
+    n = 0
+    for d in ('download', 'upload'):
+        for s in STATES:
+            for i1, m1 in enumerate(METHODS):
+                for i2, m2 in enumerate(METHODS):
+                    variants = [(j, w) for j in (0, 1, 2) for w in (0, 1)] if _allowed(d, s, m1) else [(0, 0)]
+                    for j, w in variants:
+                        n += 1
+                        stubs = (0, 1) if tier == 'thorough' else (n % 2,)
+                        for stubborn in stubs:
+                            m3 = METHODS[(i1 + 3 * i2 + j + w) % len(METHODS)]
+                            third = ['mcall', 2, m3] if m3 in ('abort', 'queue', 'pause') and (n % 3 == 0) else _call(2, m3)
+                            out.append({'kind': 'pair-cancel', 'dir': d, 'state': s, 'slow_cancel': 1, 'slow_fs': 1,
+                                        'stubborn': stubborn, 'ls': [[0, 0], [1, 1], [0, 0]], 'k': 1,
+                                        'init': _init_for(s, d, None),
+                                        'steps': [[_call(0, m1)], [_call(1, m2)]] + [[['resume']]] * j
+                                        + [[['cancel', w]], [third]] + [[['resume']]] * 6})
+    return out
+
+
+LEGACIES = [None, {'a': 1}, {'o': 1}, {'a': 1, 'o': 1, 'k': 1}]
+
+
+def _load_cases(rng) -> list[dict]:
+    """EXHAUSTIVE over (direction, stored state, all bytes there or not, record written by this release / by an older one)
+    x the first request made of the loaded transfer (every state method, every manager request): the record is written
+    by the real write_cache, read back by the real read_cache of a new manager, listeners attached at TransferAddedEvent."""
+    out = []
+    n = 0
+    firsts = [_call(0, m) for m in METHODS] + [['mcall', 0, m] for m in ('abort', 'queue', 'pause')]
+    for d in ('download', 'upload'):
+        for s in STATES:
+            for whole in (0, 1):
+                for a in firsts:
+                    n += 1
+                    ini = _init_for(s, d, None)
+                    ini.update(fs=1, b=1000 if whole else 10, rq=n % 2, tasks=('both', 'none')[n % 2])
+                    legacy = LEGACIES[n % len(LEGACIES)]
+                    if legacy and legacy.get('a'):
+                        ini['ar'] = None
+                    out.append({'kind': 'load', 'dir': d, 'state': s, 'slow_cancel': 1, 'slow_fs': n % 2, 'stubborn': 0,
+                                'ls': [[n % 2, 0], [0, [1, 0][n % 2]]], 'k': 1, 'init': ini, 'load': {'legacy': legacy},
+                                'steps': [[], [list(a)]] + [[['resume']]] * 4 + ([[['reload']], [_call(1, 'queue')]] if n % 4 == 0 else [])
+                                + [[['resume']]] * 2})
+    return out
+
+
 def _listener_mix(rng, gated_ok: bool) -> list:
     """1–3 application listeners; some suspend for 0..3 loop iterations (the same number every time, or slow one time
     and quick the next), some (when the schedule has `resume` steps to let them go) on the gate."""
@@ -656,17 +1129,34 @@ def _random_case(rng: random.Random, size: int) -> dict:
     s = rng.choice(STATES)
     case = {'kind': 'history', 'dir': d, 'state': s, 'slow_cancel': rng.randint(0, 1), 'slow_fs': rng.randint(0, 1),
             'ls': _listener_mix(rng, True), 'k': rng.choice([0, 0, 1, 3]), 'init': _init_for(s, d, rng), 'steps': []}
+    if rng.random() < 0.5:
+        case['stubborn'] = rng.randint(0, 1)
+    if rng.random() < 0.25:
+        case['load'] = {'legacy': rng.choice(LEGACIES)}
+        if case['load']['legacy'] and case['load']['legacy'].get('a'):
+            case['init']['ar'] = None
+        case['steps'].append([])        # what the listeners were told while the cache was read
+    cancels = rng.random() < 0.5        # half of the histories have callers that give up
     cid = 0
+    issued = []                         # ids issued in EARLIER steps (a caller can only be cancelled once it runs)
     pending_created = []
     weights = {'queue': 5, 'abort': 4, 'pause': 4, 'initialize': 3, 'start_transferring': 3, 'fail': 3, 'complete': 2,
                'incomplete': 2}
     meths = [m for m, w in weights.items() for _ in range(w)]
     for _ in range(rng.randint(2, size)):
         step = []
+        if cancels and issued and rng.random() < 0.3:
+            # the newest requests are the ones most likely still in flight
+            step.append(['cancel', rng.choice(issued[-3:])])
+        elif rng.random() < 0.04:
+            step.append(['reload'])
         for _ in range(rng.choice([1, 1, 1, 2, 3])):
             r = rng.random()
-            if r < 0.45:
+            if r < 0.40:
                 step.append(_call(cid, rng.choice(meths), rng))
+                cid += 1
+            elif r < 0.45:
+                step.append(['pcall', cid, rng.choice([2, 3, 4, 5])] if d == 'download' else _call(cid, 'fail', rng))
                 cid += 1
             elif r < 0.55:
                 step.append(['mcall', cid, rng.choice(['abort', 'queue', 'pause'])])
@@ -688,10 +1178,13 @@ def _random_case(rng: random.Random, size: int) -> dict:
                 step.append(['setfile'])
         # `resume` acts on what is blocked at the START of the step, and what the environment does (spawn, setfile)
         # happens at once while calls only run when the loop turns: keep that order in the step
-        step.sort(key=lambda a: {'resume': 0, 'spawn': 1, 'setfile': 1}.get(a[0], 2))
-        if step and step[0][0] == 'resume':     # the resumed holder has not run yet when the next action is applied
-            step = [a for a in step if a[0] not in ('spawn', 'setfile')]
+        step.sort(key=lambda a: {'resume': 0, 'cancel': 0, 'spawn': 1, 'setfile': 1, 'reload': 1}.get(a[0], 2))
+        if step and step[0][0] in ('resume', 'cancel'):     # the resumed / cancelled holder has not run yet when the next action is applied
+            step = [a for a in step if a[0] not in ('spawn', 'setfile', 'reload')]
+            if step[0][0] == 'cancel':
+                step = [a for a in step if a[0] != 'resume']
         case['steps'].append(step)
+        issued += [a[1] for a in step if a[0] in ('call', 'mcall', 'pcall', 'start')]
     for cid_ in pending_created:
         if rng.random() < 0.7:
             case['steps'].append([['start', cid_]])
@@ -721,19 +1214,30 @@ def _model_lines(case: dict, mode: str) -> list[str]:
     o = lambda v: '-' if v is None else str(v)
     tl = int(ini.get('tasks', 'none') != 'none')
     ls = '0' + ''.join(str(g) for g, _ in _listeners(case))       # the manager's own listener never suspends
-    out = [f"cfg {case['dir']} {int(case['slow_cancel'])} {int(case['slow_fs'])} {ls} {mode}",
-           f"init {case['state']} {o(ini.get('fr'))} {o(ini.get('ar'))} {int(bool(ini.get('rq')))} {o(ini.get('piq'))} "
+    loaded = case.get('load') is not None
+    ar = ini.get('ar')
+    if loaded and (case['load'].get('legacy') or {}).get('a'):
+        ar = None                       # the record has no abort_reason at all
+    out = [f"cfg {case['dir']} {int(case['slow_cancel'])} {int(case['slow_fs'])} {ls} {mode} {int(bool(case.get('stubborn')))}",
+           f"init {case['state']} {o(ini.get('fr'))} {o(ar)} {int(bool(ini.get('rq')))} {o(ini.get('piq'))} "
            f"{ini.get('qa', 0)} {ini.get('ua', 0)} {o(ini.get('st'))} {o(ini.get('ct'))} "
            f"{int(ini.get('file') in ('path', 'file'))} {int(ini.get('file') == 'file')} {int(bool(ini.get('fs')))} "
-           f"{ini.get('b', 0)} {tl}"]
+           f"{ini.get('b', 0)} {0 if loaded else tl}"]
+    if loaded:
+        whole = (1000 if ini.get('fs') else None) == ini.get('b', 0)        # Transfer.is_transfered()
+        out.append(f'load {int(whole)}')
+        if tl:
+            out.append('spawn')
     for step in case['steps']:
         for a in step:
             if a[0] in ('call', 'create'):
                 out.append(f"{a[0]} {a[1]} {a[2]} {o(a[3])} {int(bool(a[4]))}")
             elif a[0] == 'mcall':
                 out.append(f"mcall {a[1]} {a[2]}")
-            elif a[0] == 'start':
-                out.append(f"start {a[1]}")
+            elif a[0] == 'pcall':
+                out.append(f"pcall {a[1]} {o(a[2])}")
+            elif a[0] in ('start', 'cancel'):
+                out.append(f"{a[0]} {a[1]}")
             elif a[0] == 'spawn':
                 out.append('spawn')
             else:
@@ -786,27 +1290,46 @@ class C03(Property):
             'iterations), every listener\'s record observed: EXHAUSTIVE over (direction, state, op1, op2) with op2 issued '
             'while op1 is suspended in its slow step(s) (gated task cancellation, file-system call, listener), EXHAUSTIVE '
             'over (direction, state, op1 = any state method or manager request, op2 = TransferManager.abort/queue/pause) '
-            'likewise, the 1280 pairs again issued in one loop iteration with k-iteration cancellation, sampled (quick) / '
-            'all (thorough) triples, and random histories of up to 8 steps with up to 3 actions each (call / create+start / '
-            'manager call / resume / spawn / setfile) from random fields, all from VERIF_SEED; a case is non-trivial when '
-            'some call arrived while another held the lock (a waiter was observed or two calls were issued in one step) '
-            'and at least one listener event happened; distinct = distinct canonical case')
+            'likewise, the 1280 pairs again issued in one loop iteration with k-iteration cancellation; EXHAUSTIVE over '
+            '(direction, state, op1 allowed there, op2) x the suspension point of op1 (0/1/2 slow steps done) x whose caller '
+            'is cancelled (op1\'s = the suspended lock holder, op2\'s = waiting for the lock) x tasks that end / do not end '
+            'sooner when cancelled again (quick: alternating, thorough: both), followed by a third request; EXHAUSTIVE over '
+            '(direction, stored state, whole/partial, first request) for transfers written to a real shelve cache by the '
+            'real write_cache (a quarter each: as is / without abort_reason / with _offset / all of these under the old key) '
+            'and read back by the real read_cache of a new manager with listeners attached at TransferAddedEvent; caches '
+            'holding 2-10 transfers of mixed direction/state (monitor only); sampled (quick) / all (thorough) triples; random '
+            'histories of up to 8 steps with up to 3 actions each (call / create+start / manager call / peer message through '
+            'the real handler / resume / spawn / setfile / cancel the caller of an earlier request / reload), a quarter of '
+            'them on a transfer read from the cache, all from VERIF_SEED; a case is non-trivial when some call arrived while '
+            'another held the lock (a waiter was observed or two calls were issued in one step), or a caller was cancelled, '
+            'or the transfer was read from the cache — and at least one listener event happened; distinct = distinct '
+            'canonical case')
     assumptions = [
         'asyncio is cooperative and asyncio.Lock hands over FIFO (CPython 3.12); exercised, not modelled',
         'between two schedule steps the loop is run until nothing more can happen; overlap inside such a step '
         '(un-gated k-iteration cancellation, listener yields) is exercised on the implementation and atomic in the model',
-        'the transfer is only changed through the state methods (read_cache assigning COMPLETE/INCOMPLETE before any '
-        'listener is attached belongs to C17)',
+        'a caller is cancelled with task.cancel() at a point where the loop has settled — which is also what the time-out '
+        'of an asyncio.wait_for around the request does (3.12: wait_for runs the coroutine in the caller\'s task under '
+        'asyncio.timeout); cancelling a gather cancels its children again and the gather ends when they have ended '
+        '(CPython semantics, exercised)',
+        'outside transfer/state.py the state of a transfer is written in exactly the places C03_outside_sites_pinned lists '
+        '(re-read from the source on every run): Transfer.__init__, Transfer.transition, and the repair assignment of '
+        'read_cache, which happens before TransferManager.add registers the first listener (modelled as `load`; what it '
+        'maps to what is C17\'s subject)',
         'the model and the theorems are of the wrapper as repaired by fixes/C03-dispatch-on-current-state.patch',
     ]
     modelled = ('transfer/state.py: per-state methods (table regenerated by AST on every run: 31 overrides, effect lists, '
                 'targets per direction), _with_state_lock dispatch + lock hand-over, _remove_local_file, '
                 '_cancel_transfer_tasks/_stop_transfer; transfer/model.py: transition (state assignment, then the loop over '
                 'state_listeners in registration order, the new state read again for every listener, any listener may '
-                'suspend), set_/reset_ helpers, cancel_tasks; TransferManager.add (the manager is listener 0), '
-                'TransferManager.abort/queue/pause (refusal raises). Not modelled: OSError during file removal, real '
-                'peers (the cancelled tasks are stand-ins), the rest of the manager, listeners added or removed while '
-                'the transfer is in use')
+                'suspend), set_/reset_ helpers, cancel_tasks, __setstate__ (fresh lock, no tasks, no listeners, default '
+                'abort reason); TransferManager.add (the manager is listener 0), TransferManager.abort/queue/pause (refusal '
+                'raises), TransferManager.read_cache / write_cache (repair before add; a record of a transfer already held '
+                'is dropped), _on_peer_transfer_queue_failed; cancellation of the caller of a request at every point where '
+                'a request can be suspended (lock wait, gather over the cancelled tasks, file-system call, listener). Not '
+                'modelled: OSError during file removal, real peers (the cancelled tasks are stand-ins), the rest of the '
+                'manager, listeners added or removed while the transfer is in use, caches holding several transfers '
+                '(monitor only)')
 
     def regenerate(self):
         return [transfer_table.generate(common.REPO, common.LEAN)]
@@ -817,8 +1340,11 @@ class C03(Property):
         cases += _pair_cases()
         cases += _pair_mgr_cases()
         cases += _pair_burst_cases(rng)
+        cases += _pair_cancel_cases(tier)
+        cases += _load_cases(rng)
+        cases += _loadmany_cases(rng, (60 if tier == 'quick' else 400) * widen)
         cases += _triple_cases(rng, None if tier == 'thorough' else 1500 * widen)
-        n = (1500 if tier == 'quick' else 8000) * widen
+        n = (2500 if tier == 'quick' else 12000) * widen
         cases += [_random_case(rng, rng.choice([3, 5, 8])) for _ in range(n)]
         return cases
 
@@ -831,39 +1357,77 @@ class C03(Property):
         if model_ok:
             lines, spans = ['spec'], []
             for c in cases:
-                ls = _model_lines(c, mode)
+                ls = [] if c['kind'] == 'loadmany' else _model_lines(c, mode)       # loadmany: monitor only
                 spans.append((len(lines), len(ls)))
                 lines += ls
             out = common.run_driver(self.driver_file, lines)
             _check_spec(out[0])
-            model = [out[a + 2:a + k] for a, k in spans]      # drop the answers to cfg/init
-            for (a, k) in spans:
-                if out[a:a + 2] != ['ok', 'ok']:
-                    raise common.LeanError(f'driver rejected cfg/init: {out[a:a + 2]}')
+            model = []
+            for c, (a, k) in zip(cases, spans):
+                if c['kind'] == 'loadmany':
+                    model.append(None)
+                    continue
+                pre = 2 + (0 if c.get('load') is None else 1 + int(c['init'].get('tasks', 'none') != 'none'))
+                if out[a:a + pre] != ['ok'] * pre:
+                    raise common.LeanError(f'driver rejected cfg/init/load: {out[a:a + pre]}')
+                model.append(out[a + pre:a + k])      # drop the answers to cfg/init(/load/spawn)
         else:
             res.model_available = False
         for i, c in enumerate(cases):
             res.evaluations += 1
             res.count('kind:' + c['kind'])
+            io = impl[i]
+            if c['kind'] == 'loadmany':
+                res.count('loadmany-records', len(c['records']))
+                told = (io.get('many') or {}).get('told', {})
+                if any(told.values()):
+                    res.count('loadmany-cases-with-events')
+                    res.nontrivial_keys.add(common.sha({k: v for k, v in c.items() if k != 'kind'}))
+                res.violations += _monitor(c, io)
+                if io.get('loop_exceptions'):
+                    res.violations.append(Violation('C03-impl-error', 'exception reached the event loop: '
+                                                    + str(io['loop_exceptions'][0]), c))
+                continue
             res.count('dir:' + c['dir'])
             res.count(f'listeners:{1 + len(_listeners(c))}')
             if any(g for g, _ in _listeners(c)):
                 res.count('cases-with-gated-listener')
-            io = impl[i]
+            if c.get('load') is not None:
+                res.count('cases-read-from-cache')
+                res.count('legacy:' + ('none' if not c['load'].get('legacy') else '+'.join(sorted(c['load']['legacy']))))
+            if c.get('stubborn'):
+                res.count('cases-with-stubborn-tasks')
+            n_cancel = sum(1 for e in io['log'] if e['kind'] == 'cancel-caller')
+            if n_cancel:
+                res.count('cases-with-cancelled-caller')
+                res.count('callers-cancelled', n_cancel)
+                res.count('cancelled-after-state-assigned',
+                          sum(1 for e in io['log'] if e['kind'] == 'ret' and e['code'] == 'C' and any(
+                              x['kind'] == 'write' and x['field'] == 'state' and x['who'] == e['who'] for x in io['log'])))
+            for j, e in enumerate(io['log']):
+                if e['kind'] == 'cancel-caller':
+                    mine = [x for x in io['log'][:j] if x['who'] == e['who'] and x['kind'] != 'sched']
+                    open_ev = sum(1 for x in mine if x['kind'] == 'event') - sum(1 for x in mine if x['kind'] == 'event-end')
+                    where = ('waiting-for-lock' if not mine else 'in-listener' if open_ev > 0 else
+                             'in-file-system-call' if mine[-1]['kind'] == 'fs-wait' else
+                             'in-task-cancellation' if mine[-1]['kind'] == 'cancel' and mine[-1]['live'] > 0 else 'other')
+                    res.count('cancelled:' + where)
+            res.count('reloads', sum(1 for st in c['steps'] for a in st if a[0] == 'reload'))
+            res.count('peer-messages', sum(1 for st in c['steps'] for a in st if a[0] == 'pcall'))
             il = io['lines']
             obs = [l for l in il if ' lock=' in l]
             n_ev = sum(1 for e in io['log'] if e['kind'] == 'event')
             n_ref = sum(1 for e in io['log'] if e['kind'] == 'ret' and e['code'] in ('F', 'R'))
             overlapped = any(' w=0 ' not in l for l in obs) or \
-                any(sum(1 for a in st if a[0] in ('call', 'start', 'mcall')) > 1 for st in c['steps'])
+                any(sum(1 for a in st if a[0] in ('call', 'start', 'mcall', 'pcall')) > 1 for st in c['steps'])
             res.count('events', n_ev)
             res.count('refusals', n_ref)
-            res.count('calls', sum(1 for st in c['steps'] for a in st if a[0] in ('call', 'create', 'mcall')))
+            res.count('calls', sum(1 for st in c['steps'] for a in st if a[0] in ('call', 'create', 'mcall', 'pcall')))
             if overlapped:
                 res.count('cases-with-overlap')
             if any('lock=1' in l for l in obs):
                 res.count('cases-with-suspended-holder')
-            if overlapped and n_ev > 0:
+            if (overlapped or n_cancel or c.get('load') is not None) and n_ev > 0:
                 res.nontrivial_keys.add(common.sha({k: v for k, v in c.items() if k != 'kind'}))
             if model is not None:
                 res.traces_validated += 1
